@@ -215,6 +215,22 @@ theorem client_complete_authentic (l : List (HT × Env)) (hc : Consistent initCl
   · exact Or.inl h2
   · exact Or.inr ⟨h2, hi.resumed h2⟩
 
+/-- "... a certificate that validates for the REQUESTED name": the value handed to
+    `verify_certificate` as `server_name` (and as trust anchors) is the
+    configuration attribute itself, the peer's certificate and chain are the ones
+    received, and no method of `Context` other than the constructor ever assigns
+    `_server_name`, `_cadata`, `_cafile`, `_capath` or `_verify_mode` — so the name
+    checked is the name the application asked for, whatever its form (DNS name or
+    IP literal), not a value rewritten on the way. -/
+theorem verify_cert_uses_configured_name :
+    verifyCertArgs =
+      [("cadata", "self._cadata"), ("cafile", "self._cafile"), ("capath", "self._capath"),
+       ("certificate", "self._peer_certificate"), ("chain", "self._peer_certificate_chain"),
+       ("server_name", "self._server_name")] ∧
+    configWriters =
+      [("_server_name", ["__init__"]), ("_cadata", ["__init__"]), ("_cafile", ["__init__"]),
+       ("_capath", ["__init__"]), ("_verify_mode", ["__init__"])] := ⟨rfl, rfl⟩
+
 /-! ### no common option — no progress -/
 
 def isProgress : Act → Bool
@@ -338,6 +354,7 @@ end AQ.Props.C03
 #print axioms AQ.Props.C03.final_version_supported
 #print axioms AQ.Props.C03.transcript_coverage
 #print axioms AQ.Props.C03.client_complete_authentic
+#print axioms AQ.Props.C03.verify_cert_uses_configured_name
 #print axioms AQ.Props.C03.negotiation_first
 #print axioms AQ.Props.C03.agreement_partial
 #print axioms AQ.Props.C03.byte_flip_blocks_partial
